@@ -148,6 +148,7 @@ def run_function(ctx, spec, seed, index, tier):
         _check(ctx, "StatefulInterpreter", "stateful:eager", feats, fid, bits, refs[bits],
                lambda: sf(h, *args), h)
         ctx.note("handles_queries", h.asked)
+        ctx.outcome((fid, bits))
     if index % b["jit_stateful_every"] == 0:
         h = _handler()
         jsf = jax.jit(lambda *a: sf(h, *a))
